@@ -99,6 +99,13 @@ def check(case):
         except PropertyViolation as v:
             raise PropertyViolation("after-second-inplace-update:" + v.bucket, "after a second in-place parameter update (back to the first values): " + v.message, v.detail)
     sparse_history(case)
+    # lifecycle: evaluated state -> reinitialize_parameters() (new parameter objects) -> same parameters written again -> everything holds again
+    gen.reinit_and_set(state, case)
+    try:
+        check_round(case, state)
+    except PropertyViolation as v:
+        raise PropertyViolation("after-reinitialise:" + v.bucket, "after reinitialize_parameters() and writing the parameters again: " + v.message, v.detail)
+    shared_module(case)
     if case.get("am3"):
         from qucumber.rbm import BinaryRBM
         new = BinaryRBM(case["n"], len(case["am3"]["c"]), gpu=False)
@@ -137,6 +144,31 @@ def sparse_history(case):
             require(close(got, want(pr), REF_RTOL), f"sparse-history:{name}",
                     f"{name}() evaluated once per parameter set (history A -> B -> weights of B with biases of A -> A) is wrong for parameter set '{label}'",
                     got=got.tolist()[:8], want=want(pr).tolist()[:8])
+
+
+def shared_module(case):
+    """two states built on the SAME user-supplied amplitude module (a positive and a complex one): evaluate A, change the shared module in
+    place, evaluate B, evaluate A again - each must report the module's current parameters"""
+    if not case.get("am2") or case["n"] > 6:
+        return
+    from qucumber.nn_states import ComplexWaveFunction, PositiveWaveFunction
+    from qucumber.rbm import BinaryRBM
+    n = case["n"]
+    mod = BinaryRBM(n, len(case["am"]["c"]), gpu=False)
+    gen.set_net(mod, case["am"])
+    A = PositiveWaveFunction(n, gpu=False, module=mod)
+    B = ComplexWaveFunction(n, gpu=False, module=mod)
+    V = R.bits(n)
+    space = A.generate_hilbert_space()
+    pA = torch.exp(R.log_marg(R.net_from_case(case["am"]), V))
+    pB = torch.exp(R.log_marg(R.net_from_case(case["am2"]), V))
+    ok = lambda st_, pr: close(st_.probability(space).double(), pr, REF_RTOL) and close(st_.normalization(space).double(), pr.sum(), REF_RTOL)
+    require(ok(A, pA), "shared-module:first", "a state built on a user module does not report that module's distribution")
+    gen.set_net(mod, case["am2"])
+    require(ok(B, pB), "shared-module:second-state", "after the shared module was changed in place, the second state built on it does not report the new distribution")
+    require(ok(A, pB), "shared-module:first-state-stale", "after the shared module was changed in place (and the second state evaluated), the first state still reports the old distribution")
+    gen.set_net(mod, case["am"])
+    require(ok(A, pA) and ok(B, pA), "shared-module:restored", "with the shared module's first parameters restored the two states do not report the first distribution")
 
 
 def interleave_readonly(case, state):
